@@ -4420,6 +4420,8 @@ _index_form_to_dtype = _index_form_to_index = _form_to_layout_class = None
 
 
 def _asbuf(obj):
+    if isinstance(obj, (bytes, bytearray, memoryview)):
+        return numpy.frombuffer(obj, np.uint8)
     try:
         tmp = numpy.asarray(obj)
     except Exception:
